@@ -45,7 +45,7 @@ CFG = {
 
 @st.composite
 def _scn(draw):
-    scn = draw(st.one_of(hist.scenarios(CFG), hist.scenarios(dict(CFG, final=["create_sf"]))))
+    scn = draw(st.one_of(hist.scenarios_deep(CFG), hist.scenarios_deep(dict(CFG, final=["create_sf"]))))
     extra = draw(st.sampled_from([None, None, None, "prefix", "prefix", "big", "twins", "deep_sf"]))
     if extra == "prefix":
         # a nested history whose folder name is a prefix of a sibling folder / file that has no history of its own
@@ -85,8 +85,11 @@ def _flat_with_patterns(draw):
     tree.setdefault("notes.txt", "another fragment")
     names = sorted({p.split("/")[-1] for p in gen.tree_files(tree) + gen.tree_dirs(tree)})
     pats = draw(st.lists(st.sampled_from(names + ["my notes.txt", "Camera Reports"]), min_size=1, max_size=3, unique=True))
+    tree.setdefault("kid", {"k.txt": "in the nested history", "my": "another 'my'"})
     return {"kind": "flat_with_patterns", "tree": tree, "patterns": pats, "via": draw(st.sampled_from(["-i", "-ii", "-ii"])), "gens": draw(st.lists(gen.formats(2), min_size=1, max_size=3)),
-            "newline": draw(st.booleans())}
+            "newline": draw(st.booleans()),
+            # optionally 'kid' has a history of its own and one generation of the top history is a create -sf on a file in it
+            "kid_history": draw(st.booleans()), "sf_generation_at": draw(st.integers(0, 3))}
 
 
 def strategy(tier):
@@ -102,11 +105,24 @@ def run_flat_with_patterns(scn, ctx):
         with open(w.abs("_ii/patterns.txt"), "w") as fh:
             fh.write("\n".join(scn["patterns"]) + ("\n" if scn["newline"] else ""))
         extra = ["-ii", w.abs("_ii/patterns.txt")] if scn["via"] == "-ii" else [a for p in scn["patterns"] for a in ("-i", p)]
+        kid = scn.get("kid_history") and "R/kid" in w.dirs
+        if kid:
+            res = w.create("R/kid", ["md5"])
+            require(res.exc is None and res.exit_code == 0, "create-abort", res.brief(), res)
         for gi, fm in enumerate(scn["gens"]):
+            if kid and gi > 0 and gi == scn.get("sf_generation_at") and "R/kid/k.txt" in w.files:
+                res = w.create("R", fm, sf=["R/kid/k.txt"])
+                require(res.exc is None and res.exit_code == 0, "create-abort", res.brief(), res)
+                ctx.event("sf_generation_between")
             res = w.create("R", fm, extra=extra if gi == 0 else [])
             require(res.exc is None and res.exit_code == 0, "create-abort", res.brief(), res)
             doc = w.read_history("R")[-1][2]
             got = {(r["kind"], r["path"]) for r in doc["records"]}
+            if kid and len(w.manifests("R/kid")) > 1:
+                # records of the nested history written by this run count with their path below the top folder
+                kd = w.read_history("R/kid")[-1][2]
+                if doc["references"]:
+                    got |= {(r["kind"], "kid/" + r["path"]) for r in kd["records"]}
             exp = {("file", f[2:]) for f in w.media_files("R") if not matches(f[2:], scn["patterns"])} | {("dir", d[2:]) for d in w.media_dirs("R") if not matches(d[2:], scn["patterns"])}
             require(got == exp, "missing-record" if exp - got else "extra-record",
                     "generation %d with patterns %r (%s): not recorded %s, recorded but excluded %s" % (gi + 1, scn["patterns"], scn["via"], sorted(exp - got)[:4], sorted(got - exp)[:4]), res)
